@@ -45,6 +45,32 @@ def quotientE (x y : ESNum) : Res ESNum := do
     | none => .ill "quotient: digits exceed the widest integer"
   | _, _ => .ill "quotient: digits exceed the widest integer"
 
+/-! ## an elastic_integer representation against an operand with a built-in representation
+
+`scaled_integer<elastic_integer<D, N>, power<eL>>` combined with `scaled_integer<T, power<eR>>` (or a plain `T`, which
+`scaled_integer/from_value.h` lifts to exponent 0), either operand order.  `/` and `%` strip the scaled layer and apply
+the operator to `elastic_integer<D, N>` and `T`; "wrapper OP lower" (`wrapper/binary_arithmetic_operator.h`) lifts the
+built-in operand with `from_value<elastic_integer<D, N>, T>` = `elastic_integer<digits T, set_width_t<T, width N>>`
+(`elastic_integer/from_value.h`): the **signedness of `T`** at the width of `N`.  From there on both operands are
+elastic and everything is the elastic/elastic model.  Every elastic result of an operator with the lifted operand has
+a narrowest type of the width of `N` again, so the lifted type is the same in all five operators of the identity. -/
+
+/-- `from_value<elastic_integer<_, N>, T>(v)` at exponent `e` -/
+def ofBuiltin (n T : IntTy) (e : Int) (v : Int) : ESNum := ⟨T.digits, ⟨n.bits, T.signed⟩, e, v⟩
+
+/-- `/` or `%`; `left`: the built-in operand is the left one -/
+def binOpB (op : BinOp) (left : Bool) (x : ESNum) (T : IntTy) (eT : Int) (b : Int) : Res ESNum :=
+  let y := ofBuiltin x.narrowest T eT b
+  if left then ElasticScaled.binOp op y x else ElasticScaled.binOp op x y
+
+def identB (left : Bool) (x : ESNum) (T : IntTy) (eT : Int) (b : Int) : Res Bool :=
+  let y := ofBuiltin x.narrowest T eT b
+  if left then identE y x else identE x y
+
+def quotientB (left : Bool) (x : ESNum) (T : IntTy) (eT : Int) (b : Int) : Res ESNum :=
+  let y := ofBuiltin x.narrowest T eT b
+  if left then quotientE y x else quotientE x y
+
 /-- a `scaled_integer<overflow_integer<T, tag>, power<e, radix>>` -/
 def scOv (T : IntTy) (tag : OvTag) (e : Int) (radix : Nat) (v : Int) : Num := (.sc (.ov (.int T) tag) e radix, v)
 
